@@ -18,6 +18,8 @@ func buildProfile() (lifes, forms, variants []int) {
 		return all, []int{kit.IdPlain, kit.IdNamed, kit.IdGroup, kit.IdAs, kit.IdAsGroup}, []int{0, 4, 5, 7, 8, 16}
 	case 2: // initializers and multi-output forms
 		return all, []int{kit.IdPlain, kit.IdVoid, kit.IdVoidErr, kit.IdMulti, kit.IdResObj}, []int{0, 1, 11, 3}
+	case 4: // the same dependency twice, one type under two keys, embedded fields
+		return all, []int{kit.IdPlain, kit.IdResObj2}, []int{0, 1, 9, 23, 24, 25}
 	case 3: // small: plain edges, optional edge (for n=3 order permutations)
 		return all, []int{kit.IdPlain}, []int{0, 1, 6, 11}
 	}
@@ -117,6 +119,7 @@ func H_Build() {
 	c := godi.NewCollection()
 	errs := w.Register(c)
 	vrt.Assume(!addErrs(errs, n))
+	checkDeclared(w, c)
 	vrt.Limit("C05.nontermination")
 	p, err := c.Build()
 	vrt.Limit("")
@@ -183,6 +186,51 @@ func H_Build() {
 	_ = produced
 	sc.Close()
 	p.Close()
+}
+
+// checkDeclared: what the container recorded as the dependencies of each
+// registration is exactly what its constructor declares (every parameter and
+// every injectable parameter-object field: type, key, group, optional) - the
+// dependency relation that cycle detection and lifetime validation work on.
+func checkDeclared(w *kit.World, c godi.Collection) {
+	for _, d := range c.ToSlice() {
+		r := -1
+		for s := 0; s < w.N; s++ {
+			if d.Type == kit.TypeS[s] && w.Regs[s].Present && w.Regs[s].Form != kit.IdInstance {
+				r = s
+			}
+		}
+		if r < 0 {
+			continue
+		}
+		want := kit.Deps[r][w.Regs[r].Variant]
+		ok := len(d.Dependencies) == len(want)
+		for j := 0; ok && j < len(want); j++ {
+			dep := d.Dependencies[j]
+			var wt any
+			switch {
+			case want[j].Target >= 0:
+				wt = kit.TypeS[want[j].Target]
+			case want[j].Target == -1:
+				wt = kit.TypeI0
+			}
+			if wt != nil && dep.Type != wt {
+				ok = false
+			}
+			if (dep.Key == "k1") != (want[j].Form == kit.FormNamed) || (dep.Key != nil && dep.Key != "k1") {
+				ok = false
+			}
+			if (dep.Group == "g1") != (want[j].Form == kit.FormGroup) {
+				ok = false
+			}
+			if dep.Optional != (want[j].Form == kit.FormOptional) {
+				ok = false
+			}
+		}
+		vrt.Assert(ok, "C05.declared_edge_lost", "registration", r, "declares", len(want), "dependencies; the container recorded", len(d.Dependencies), "(or different ones)")
+		vrt.Assert(ok, "C07.declared_dependency_lost", "registration", r, "declares", len(want), "dependencies; the container recorded", len(d.Dependencies), "(or different ones)")
+		vrt.Assert(ok, "C08.declared_dependency_lost", "registration", r, "declares", len(want), "dependencies; the container recorded", len(d.Dependencies), "(or different ones)")
+	}
 }
 
 func reachesScoped(w *kit.World, in *kit.Inst, depth int) bool {
